@@ -78,6 +78,13 @@ class Env(object):
         self.n_attempts_total = 0
         self.skips = set((int(v), int(a)) for v, a in cfg.get("skips", []))
         self.param_errors = []
+        self.real_exit = False      # True: die with os._exit(137)
+
+    def die(self, msg):
+        """The 'process' dies here."""
+        if self.real_exit:
+            os._exit(137)
+        raise SimulatedCrash(msg)
 
     def now(self):
         return self.clock
@@ -152,7 +159,7 @@ def make_runner(env, cfg=None):
             if env.crash_at_call is not None and n == env.crash_at_call:
                 env.log.append(("call", dict(run=env.run_no, v=v, attempt=a,
                                              gid=None, crashed=True)))
-                raise SimulatedCrash("in call %d" % n)
+                env.die("in call %d" % n)
             if (v, a) in env.skips:
                 env.log.append(("call", dict(run=env.run_no, v=v, attempt=a,
                                              gid=None)))
@@ -240,7 +247,7 @@ class _BufferedFile(object):
         self.inj.fired = "write#%d:%s(%d/%d bytes) %s" % (
             self.inj.n_writes - 1, self.crash_prefix, k, n,
             os.path.basename(self.path))
-        raise SimulatedCrash(self.inj.fired)
+        self.inj.env.die(self.inj.fired)
 
 
 class _OsProxy(object):
@@ -291,6 +298,10 @@ class Injector(object):
     def open(self, path, mode="r", *a, **kw):
         import builtins
         if ("w" in mode or "a" in mode or "x" in mode) and self._mine(path):
+            if not os.path.isdir(os.path.dirname(os.fspath(path)) or "."):
+                # the open fails (library creates the folder and retries):
+                # not a save event
+                return builtins.open(path, mode, *a, **kw)
             k = self.n_writes
             self.n_writes += 1
             self.events.append(("write", k, os.path.basename(str(path))))
@@ -300,7 +311,7 @@ class Injector(object):
                 if c["prefix"] == "open":
                     self.fired = "write#%d:at-open %s" % (
                         k, os.path.basename(str(path)))
-                    raise SimulatedCrash(self.fired)
+                    self.env.die(self.fired)
                 prefix = c["prefix"]
             return _BufferedFile(self, os.fspath(path), mode, builtins.open,
                                  prefix)
@@ -316,7 +327,7 @@ class Injector(object):
         hit = c and c["at"] == "replace" and c["k"] == k
         if hit and c["when"] == "before":
             self.fired = "replace#%d:before" % k
-            raise SimulatedCrash(self.fired)
+            self.env.die(self.fired)
         os.replace(src, dst, *a, **kw)
         rs, rd = os.path.realpath(os.fspath(src)), \
             os.path.realpath(os.fspath(dst))
@@ -324,7 +335,7 @@ class Injector(object):
             self.durable[rd] = self.durable.pop(rs)
         if hit:
             self.fired = "replace#%d:after" % k
-            raise SimulatedCrash(self.fired)
+            self.env.die(self.fired)
 
     def remove(self, path, *a, **kw):
         if not self._mine(path):
@@ -336,12 +347,12 @@ class Injector(object):
         hit = c and c["at"] == "remove" and c["k"] == k
         if hit and c["when"] == "before":
             self.fired = "remove#%d:before" % k
-            raise SimulatedCrash(self.fired)
+            self.env.die(self.fired)
         os.remove(path, *a, **kw)
         self.durable.pop(os.path.realpath(os.fspath(path)), None)
         if hit:
             self.fired = "remove#%d:after" % k
-            raise SimulatedCrash(self.fired)
+            self.env.die(self.fired)
 
     def new_run(self, crash):
         self.crash = crash
